@@ -62,7 +62,8 @@ class PrecipitateModel (PrecipitateBase):
             bounds = data['PBM_bounds_' + self.phases[p]]
             size = data['PBM_size_' + self.phases[p]]
             eqAR = data['eqAspectRatio_' + self.phases[p]]
-            self.PBM[p] = PopulationBalanceModel(PBMdata[0], PBMdata[1], int(PBMdata[2]))
+            #Keep the size class settings of this model (min/max number of bins, adaptive sizing, recording), only the grid and distribution are loaded
+            self.PBM[p].min, self.PBM[p].max, self.PBM[p].bins = PBMdata[0], PBMdata[1], int(PBMdata[2])
             self.PBM[p].PSD = psd
             self.PBM[p].PSDsize = size
             self.PBM[p].PSDbounds = bounds
